@@ -132,6 +132,41 @@ def judge_gls_markup(c, rs):
         fails.append('%s and %s of one entry typeset different words: %r / %r' % (c['pair'][0], c['pair'][1], lo, up))
     return fails
 
+def escaped_special_cases(rng):
+    """escaped special characters \\$ \\{ \\} \\% \\& \\# \\_ inside the arguments of text macros (headings, fonts, footnote,
+    caption, plain group): each is one character of text, once; the words around it stay; no error mark"""
+    wraps = ['\\section{%s}', '\\subsection*{%s}', '\\chapter{%s}', '\\title{%s}', '\\textbf{%s}', '\\emph{%s}', '\\footnote{%s}',
+             '\\caption{%s}', '\\paragraph{%s}', '\\mbox{%s}', '{%s}', '\\section[opt]{%s}', '\\part{%s}', '\\subsubsection{%s}',
+             '\\textit{\\textbf{%s}}']
+    specs = [('\\$', '$'), ('\\{', '{'), ('\\}', '}'), ('\\%', '%'), ('\\&', '&'), ('\\#', '#'), ('\\_', '_')]
+    out = []
+    for w in wraps:
+        for s, ch in specs:
+            for two in (False, True):
+                ws = ['Q' + ''.join(rng.choice('abcdefghijklmnopqrstuvwxyz') for _ in range(5)) for _ in range(6)]
+                if len(set(ws)) < 6:
+                    continue
+                inner = '%s %s %s %s' % (ws[1], s, ws[2], (s + ' ' + ws[3]) if two else ws[3])
+                src = '%s\n\n%s\n\n%s %s %s.\n' % (ws[0], w % inner, ws[4], s if rng.random() < 0.5 else '', ws[5])
+                out.append({'src': src, 'opts': {'lang': 'en', 'pack': '*'}, 'multi': False, 'kind': 'escspec',
+                            'escspec': {'words': ws, 'ch': ch, 'nch': src.count(s)}})
+    return out
+
+def judge_escaped(c, r):
+    if r['outcome'] != 'ok':
+        return []
+    e = c['escspec']
+    txt = r['txt']
+    got = re.findall(r'Q[a-z]{5}', txt)
+    f = []
+    if sorted(got) != sorted(e['words']):
+        f.append('words of the document %r, words of the output %r' % (e['words'], got))
+    if txt.count(e['ch']) != e['nch']:
+        f.append('%d escaped %r in the source, %d in the output %r' % (e['nch'], e['ch'], txt.count(e['ch']), txt))
+    if 'LATEXXXERROR' in txt:
+        f.append('error mark in the output of a correct document')
+    return f
+
 def run(ctx):
     n = ctx.scale(900, 25000)
     rng = ctx.rng
@@ -167,7 +202,15 @@ def run(ctx):
         f = judge_gls_markup(c, rs)
         if f:
             ctx.violation(f[0], src=c['srcs'][1], opts=c['opts'], files=c['files'], glsmarkup={k: c[k] for k in ('pair', 'srcs', 'files', 'hidden', 'opts')})
+    es = [c for _ in range(ctx.scale(1, 10)) for c in escaped_special_cases(rng)]
+    es_res = ctx.pmap(t2t.run_case, es)
+    for c, r in zip(es, es_res):
+        ctx.case(c['src'], nontrivial=True); ctx.count('escaped_special_docs')
+        f = judge_escaped(c, r)
+        if f:
+            ctx.violation(f[0], src=c['src'], opts=c['opts'], escspec=c['escspec'])
     corr.t2t(ctx, cases, results, proj=('outcome', 'toks', 'text'), limit=ctx.scale(900, 20000))
+    corr.t2t(ctx, es, es_res, proj=('outcome', 'text'), limit=ctx.scale(100, 1000))
 
 def judge_witness(w):
     if w.get('glsmarkup'):
@@ -175,6 +218,9 @@ def judge_witness(w):
         return judge_gls_markup(c, run_gls_markup(c))
     c = {'src': w['src'], 'opts': w.get('opts') or {}, 'multi': False}
     r = t2t.run_case(c)
+    if w.get('escspec'):
+        c['escspec'] = w['escspec']
+        return judge_escaped(c, r)
     if r['outcome'] != 'ok':
         return []
     fails = []
